@@ -125,7 +125,9 @@ var (
 	}
 	hdrKeys  = []string{"service", "x-a", "x-b", "x-c"}
 	hdrVals  = []string{"v1", "V1", "v2", "svc.A", "svc.B", "other"}
-	hdrRegex = map[string][]string{"^v[0-9]$": {"v1", "v2"}, "^svc\\..*$": {"svc.A", "svc.B"}, ".*": {"other", "v1"}, "^V.*$": {"V1"}, "^(v1|svc\\.A)$": {"v1", "svc.A"}}
+	hdrRegex = map[string][]string{"^v[0-9]$": {"v1", "v2"}, "^svc\\..*$": {"svc.A", "svc.B"}, ".*": {"other", "v1"}, "^V.*$": {"V1"}, "^(v1|svc\\.A)$": {"v1", "svc.A"},
+		// unanchored patterns (Go regexp search semantics): a literal matches every value that contains it
+		"v": {"v1", "svc.A", "v2"}, "svc": {"svc.A", "svc.B"}, "1": {"v1", "V1"}, "c\\.": {"svc.A", "svc.B"}, "[0-9]": {"v1", "V1", "v2"}}
 	methods  = []string{"GET", "POST", "PUT", "get"}
 	queries  = []string{"", "k=v", "k=v&x=1", "x=1"}
 	xVals    = []string{"x1", "x22", "y"}
@@ -546,6 +548,17 @@ func fullMatch(pat, s string) bool {
 	return v.(*regexp.Regexp).MatchString(s)
 }
 
+var reSearchCache sync.Map
+
+func searchMatch(pat, s string) bool {
+	v, ok := reSearchCache.Load(pat)
+	if !ok {
+		v = regexp.MustCompile(pat)
+		reSearchCache.Store(pat, v)
+	}
+	return v.(*regexp.Regexp).MatchString(s)
+}
+
 func hdrsHold(hs []hdrM, q *reqSpec) bool {
 	for _, h := range hs {
 		v, ok := q.Headers[h.Name]
@@ -553,7 +566,8 @@ func hdrsHold(hs []hdrM, q *reqSpec) bool {
 			return false
 		}
 		if h.Regex {
-			if !fullMatch(h.Value, v) {
+			// header regex matchers use Go's regexp search semantics (unanchored unless the pattern anchors itself)
+			if !searchMatch(h.Value, v) {
 				return false
 			}
 		} else if v != h.Value {
